@@ -401,7 +401,7 @@ Proof.
     destruct (IH Hts) as [targets [Ha Hf]]. rewrite Hs, Ha. eexists. split; [reflexivity|]. constructor; assumption.
 Qed.
 
-Lemma join_or_lex (P : str -> list token -> Prop) z prop targets types :
+Lemma join_or_lex z prop targets types :
   Forall2 (fun s t => lexes (s ++ gap) (target_toks z prop t)) targets types -> types <> [] ->
   lexes (join (gap ++ Str "OR" ++ gap) targets ++ gap) (or_join (map (target_toks z prop) types)).
 Proof.
@@ -444,7 +444,7 @@ Proof.
     apply lexes_line_end. apply lexes_base.
     + apply lexes_inv.
     + apply gapL, Hpl.
-    + apply (join_or_lex (fun _ _ => True)); assumption.
+    + apply join_or_lex; assumption.
     + apply lexes_card.
     + apply lexes_semi.
   - assert (Ht : target_dom z (s_prop s) (s_type s) = true).
